@@ -1839,6 +1839,32 @@ func c07ExecContract(c *Ctx) {
 		return
 	}
 	scope := []*ssa.Function{exec}
+	for _, f := range pkgClosure(exec) {
+		if f != exec && prog.PkgOf(f) == "core" {
+			scope = append(scope, f) // the helpers Exec is split into
+		}
+	}
+	// same: a denotes leaf — the value itself, or a helper's parameter that receives it at the helper's one call site
+	var same func(a, leaf ssa.Value, depth int) bool
+	same = func(a, leaf ssa.Value, depth int) bool {
+		if a == leaf {
+			return true
+		}
+		pr, isP := a.(*ssa.Parameter)
+		if !isP || depth > 2 {
+			return false
+		}
+		sites := callSitesOf(pr.Parent(), scope)
+		if len(sites) != 1 {
+			return false
+		}
+		for i, fp := range pr.Parent().Params {
+			if fp == pr && i < len(sites[0].Common().Args) {
+				return same(sites[0].Common().Args[i], leaf, depth+1)
+			}
+		}
+		return false
+	}
 	nonNil := func(leaf ssa.Value, facts []flow.Fact) bool {
 		switch x := leaf.(type) {
 		case *ssa.Alloc, *ssa.MakeInterface:
@@ -1861,7 +1887,7 @@ func c07ExecContract(c *Ctx) {
 			if !ok || (bo.Op != token.NEQ && bo.Op != token.EQL) {
 				continue
 			}
-			if (bo.X == leaf && ssau.IsNilConst(bo.Y)) || (bo.Y == leaf && ssau.IsNilConst(bo.X)) {
+			if (same(bo.X, leaf, 0) && ssau.IsNilConst(bo.Y)) || (same(bo.Y, leaf, 0) && ssau.IsNilConst(bo.X)) {
 				if (bo.Op == token.NEQ) == ft.True {
 					return true
 				}
